@@ -22,6 +22,7 @@ def run(s):
     K.huge_cases(s, 2 if s.tier == 'quick' else 12)
     K.large_cases(s, 24 if s.tier == 'quick' else 600, 'item')
     K.pair_histories(s)
+    K.item_grid(s, 3, pretties=(True,), kmax=2, full=False, inters=(False,), item_names=K.LONG_NAMES)
     if s.tier == 'quick':
         K.item_grid(s, 4, pretties=(False,), kmax=3, full=False)
         K.item_grid(s, 4, pretties=(True,), kmax=2, full=False, inters=(False,), item_names=K.HOSTILE_NAMES)
